@@ -14,7 +14,7 @@
    Dofs are integers  p * N + i  (i = C-order ravel of the local multi-index).                 *)
 EXTENDS Integers, Sequences, FiniteSets, SequencesExt, FiniteSetsExt, Functions, TLC, Emit
 
-CONSTANTS Kind,       \* "lattice" | "ring"
+CONSTANTS Kind,       \* "lattice" | "ring" | "band" (K patches closed to an annulus: for K = 2 two patches share TWO faces)
           D,          \* dimension of a patch (2 or 3)
           W1, W2, W3, \* lattice extents along axes 1..3 (unused trailing ones = 1)
           NN,         \* dofs per direction in each patch
@@ -35,7 +35,7 @@ vars == <<spp, sdofs, cnt, fin, hist>>
 View == <<spp, sdofs, cnt, fin, Len(hist)>>    \* the join bound depends on Len(hist) (see HSpace.tla)
 
 W   == <<W1, W2, W3>>
-NP  == IF Kind = "ring" THEN K ELSE FoldLeft(LAMBDA a, i : a * W[i], 1, [i \in 1..D |-> i])
+NP  == IF Kind \in {"ring", "band"} THEN K ELSE FoldLeft(LAMBDA a, i : a * W[i], 1, [i \in 1..D |-> i])
 N   == FoldLeft(LAMBDA a, i : a * NN, 1, [i \in 1..D |-> i])
 Dofs == 0..(NP * N - 1)
 PatchOf(d) == d \div N
@@ -95,7 +95,17 @@ RingInterfaces ==
      IN [p1 |-> p1, ax1 |-> 1, s1 |-> 0, p2 |-> p2, ax2 |-> 0, s2 |-> 0, flip |-> <<FALSE>>,
          pairs |-> [j \in 1..Len(f1) |-> <<p1 * N + f1[j], p2 * N + f2[j]>>]]]
 
-Interfaces == IF Kind = "ring" THEN RingInterfaces ELSE LatticeInterfaces
+\* band: patch k's x-high face ('right': axis D, side 1) is glued to patch k+1's x-low face ('left'), cyclically; no flip.
+\* (D = 2 only.)  For K = 2 the two patches share two faces; interface 2 goes from patch 1 back to patch 0.
+BandInterfaces ==
+  [k \in 1..K |->
+     LET p1 == k - 1  p2 == k % K
+         f1 == FaceSeq(p1, 2, 1)
+         f2 == FaceSeq(p2, 2, 0)
+     IN [p1 |-> p1, ax1 |-> 1, s1 |-> 1, p2 |-> p2, ax2 |-> 1, s2 |-> 0, flip |-> <<FALSE>>,
+         pairs |-> [j \in 1..Len(f1) |-> <<p1 * N + f1[j], p2 * N + f2[j]>>]]]
+
+Interfaces == IF Kind = "ring" THEN RingInterfaces ELSE IF Kind = "band" THEN BandInterfaces ELSE LatticeInterfaces
 NI == Len(Interfaces)
 
 -----------------------------------------------------------------------------
